@@ -489,7 +489,7 @@ def assume_pred(interp, pred, *args):
         if n not in interp.reg.ghost_env:
             raise Unsupported('predicate %s needs ghost %r which is not in scope' % (getattr(pred, '__name__', pred), n))
         extra.append(interp.reg.ghost_env[n])
-    interp.st.assume(interp.truth(interp.call(pred, list(args) + extra, {})))
+    interp.st.assume(interp.truth(interp.call_assumed(pred, list(args) + extra, {})))
 
 
 def _iface_lookup(iface, table, name):
